@@ -1,4 +1,4 @@
 import SA.Model.Pipe
 namespace SA.Drv.Pipe
-def entries : List (String × (List String → String)) := [("pipe", SA.Pipe.handle), ("life", SA.Pipe.handleLife), ("burst", SA.Pipe.handleBurst)]
+def entries : List (String × (List String → String)) := [("pipe", SA.Pipe.handle), ("life", SA.Pipe.handleLife), ("burst", SA.Pipe.handleBurst), ("stdiol", SA.Pipe.handleStdiol)]
 end SA.Drv.Pipe
